@@ -188,6 +188,17 @@ func c07RespAnswer(m *ResponseMatcher, name string, qt uint16, ips []netip.Addr,
 	})
 }
 
+// an upper bound of the number of match sets a rule list compiles to (one per parameter at most, plus the fallback)
+func c07SetsUpperBound(rules []c07Rule) int {
+	n := 1
+	for _, rule := range rules {
+		for _, f := range rule.funcs {
+			n += len(f.params)
+		}
+	}
+	return n
+}
+
 func TestVerifC07Matchers(t *testing.T) {
 	r := NewVRand(VSeed())
 	stats := NewVStats()
@@ -226,10 +237,12 @@ func TestVerifC07Matchers(t *testing.T) {
 		// ---- request side
 		reqOp := fmt.Sprintf("req %d %s %s", nUp, reqFb, c07RenderOp(reqRules))
 		rp, err := c07BuildReq(dnsCfg, name2id)
-		if err != nil && strings.Contains(err.Error(), "too many routing rules") {
-			// more than MaxMatchSetLen match sets: the size limit is C17's subject, not modelled here
+		if c07SetsUpperBound(reqRules) >= consts.MaxMatchSetLen || c07SetsUpperBound(respRules) >= consts.MaxMatchSetLen {
+			// possibly more than MaxMatchSetLen match sets: the size limit is C17's subject, not modelled here
 			stats.Inc("cfg.skipped-over-size-limit")
-		} else if err != nil {
+			continue
+		}
+		if err != nil {
 			st.Emit(reqOp, "builderr")
 		} else {
 			st.Emit(reqOp, c07DumpReq(rp.plainB, rp.plain))
@@ -251,11 +264,7 @@ func TestVerifC07Matchers(t *testing.T) {
 		respOp := fmt.Sprintf("resp %d %s %s", nUp, respFb, c07RenderOp(respRules))
 		sp, err := c07BuildResp(dnsCfg, name2id)
 		if err != nil {
-			if strings.Contains(err.Error(), "too many routing rules") {
-				stats.Inc("cfg.skipped-over-size-limit")
-			} else {
-				st.Emit(respOp, "builderr")
-			}
+			st.Emit(respOp, "builderr")
 			continue
 		}
 		st.Emit(respOp, c07DumpResp(sp.plainB, sp.plain))
